@@ -61,8 +61,9 @@ def write_cfg(name, invs, **kw):
 
 
 def run_tlc(name, invs, timeout=1500, **kw):
-    cfg = write_cfg(f'_c18_{name}.cfg', invs, **kw)
-    tag = f'c18_{name}'
+    # unique per process: several runs of this check may be active at once
+    cfg = write_cfg(f'_c18_{os.getpid()}_{name}.cfg', invs, **kw)
+    tag = f'c18_{os.getpid()}_{name}'
     try:
         res = tlc.run(SPEC, 'Config', cfg, tag, workers=1, timeout=timeout,
                       java_heap='2g', env=JVM_ENV)
